@@ -226,6 +226,10 @@ func traceSpec(sc *sims.Scenario, out *sims.Outcome, pos int) string {
 
 func judge(r *core.Run, sc *sims.Scenario, out *sims.Outcome) {
 	r.Eval(1)
+	if out.Stuck {
+		r.Inconclusive("a call did not return within the watchdog (C09 / C17 decide that): " + sc.Desc())
+		return
+	}
 	if out.Panic != nil {
 		r.Count("panicked", 1)
 		return
